@@ -188,6 +188,17 @@ def run(tier):
         for order in (tpls, list(reversed(tpls))):
             ajobs.append({"cfg": {"prefixes": ["p/", "q/"]}, "steps": [{"op": "add", "tpls": order}] + [{"op": "render", "name": n} for n, _ in order]})
             ameta.append((["names and prefixes"], "default", json.dumps(order)[:300]))
+    # every extends/include digraph over three templates, one of them reachable only through a fallback prefix (MC_Graph,
+    # the enumeration C11 decides): here only "registration and rendering come back"
+    import registry_glue as RG
+    with open(vp.SPEC + "/MC_Graph_run.cfg", "w") as f:
+        f.write(open(vp.SPEC + "/MC_Graph.cfg").read().replace('Place = "all"', 'Place = "body"'))
+    rg = vp.tlc("MC_Graph", "MC_Graph_run", workers=6, timeout=3000, name="c06-graph", xmx="16g")
+    C.add_tlc(rg, "MC_Graph N=3, includes in the body (registration must come back)")
+    for v in rg.tags["VEC"]:
+        tpls = [[n, RG.src(n, d, compname="k")] for n, d in sorted(v["g"].items())]
+        ajobs.append({"cfg": {"prefixes": ["p/"]}, "steps": [{"op": "add", "tpls": tpls}] + ([{"op": "render", "name": n} for n, _ in tpls] if v["ok"] else [])})
+        ameta.append((["graph"], "default", json.dumps(tpls)[:300]))
     # component signatures: every sequence of <= 3 signature atoms between the parentheses of a component definition
     # (MC_Atoms again), with and without metadata, and as the attributes of a call
     SIG = ["p", "q", ": ", "string", "strng", "number", "= ", "1", "-1", "1.5", "'a'", "[1]", "{}", "{'a': 1}", "none", "true", ", ", "...rest", "...", ":", "=", "p, p", "(", ")", "é"]
